@@ -508,3 +508,15 @@ M('C07', '_Transpose._end without normdim', 'function.py', "        axes = tuple
 M('C07', '_Transpose._end without duplicate check', 'function.py', "        if len(trans) != array.ndim:\n            raise Exception('duplicate axes')\n        return cls(", "        return cls(", rule='R07.8')
 M('C07', 'benign: transpose permutation check via set', 'function.py', "        if sorted(axes) != list(range(array.ndim)):\n            raise ValueError(\"axes don't match array\")", "        if len(axes) != array.ndim or len(set(axes)) != array.ndim:\n            raise ValueError(\"axes don't match array\")", expect='silent')
 M('C07', 'benign: transpose normalises into a new name', 'function.py', "        axes = tuple(numeric.normdim(array.ndim, axis) for axis in axes)\n        if sorted(axes) != list(range(array.ndim)):\n            raise ValueError(\"axes don't match array\")\n        return _Transpose(array, axes)", "        perm = tuple(numeric.normdim(array.ndim, axis) for axis in axes)\n        if sorted(perm) != list(range(array.ndim)):\n            raise ValueError(\"axes don't match array\")\n        return _Transpose(array, perm)", expect='silent')
+M('C07', 'revert F17: eig without squareness test', 'function.py', "    def eig(a):\n        if a.ndim < 2 or a.shape[-2] != a.shape[-1]:\n            raise ValueError('Last 2 dimensions of the array must be square')\n        return", "    def eig(a):\n        return", rule='R07.9')
+M('C07', 'revert F17: eigh without squareness test', 'function.py', "    def eigh(a):\n        if a.ndim < 2 or a.shape[-2] != a.shape[-1]:\n            raise ValueError('Last 2 dimensions of the array must be square')\n        return", "    def eigh(a):\n        return", rule='R07.9')
+M('C07', 'det tests the dimension only', 'function.py', "    def det(a):\n        if a.ndim < 2 or a.shape[-2] != a.shape[-1]:", "    def det(a):\n        if a.ndim < 2:", rule='R07.9')
+M('C07', 'inv without test', 'function.py', "    def inv(a):\n        if a.ndim < 2 or a.shape[-2] != a.shape[-1]:\n            raise ValueError('Last 2 dimensions of the array must be square')\n", "    def inv(a):\n", rule='R07.9')
+M('C07', 'revert F18: searchsorted accepts any dimension', 'function.py', "        if array.ndim != 1:\n            raise ValueError('the array to search must be one-dimensional')\n", "", rule='R07.9')
+M('C07', 'revert F19: interp without length test', 'function.py', "        if numpy.ndim(xp) != 1 or numpy.shape(xp) != numpy.shape(fp):\n            raise ValueError('fp and xp must be one-dimensional and of the same length')\n", "", rule='R07.7')
+M('C07', 'interp tests the lengths after forming the slopes', 'function.py', "        if numpy.ndim(xp) != 1 or numpy.shape(xp) != numpy.shape(fp):\n            raise ValueError('fp and xp must be one-dimensional and of the same length')\n        index = numpy.searchsorted(xp, x)\n        _xp = numpy.concatenate([[xp[0]], xp])\n        _fp = numpy.concatenate([[fp[0]], fp])\n        _gp = numpy.concatenate([[0.], numpy.diff(fp) / numpy.diff(xp), [0.]])\n",
+  "        index = numpy.searchsorted(xp, x)\n        _xp = numpy.concatenate([[xp[0]], xp])\n        _fp = numpy.concatenate([[fp[0]], fp])\n        _gp = numpy.concatenate([[0.], numpy.diff(fp) / numpy.diff(xp), [0.]])\n        if numpy.ndim(xp) != 1 or numpy.shape(xp) != numpy.shape(fp):\n            raise ValueError('fp and xp must be one-dimensional and of the same length')\n", rule='R07.7')
+M('C07', 'benign: interp length test with len()', 'function.py', "        if numpy.ndim(xp) != 1 or numpy.shape(xp) != numpy.shape(fp):", "        if numpy.ndim(xp) != 1 or numpy.ndim(fp) != 1 or len(xp) != len(fp):", expect='silent')
+M('C07', 'benign: eig test split in two', 'function.py', "    def eig(a):\n        if a.ndim < 2 or a.shape[-2] != a.shape[-1]:\n            raise ValueError('Last 2 dimensions of the array must be square')\n", "    def eig(a):\n        if a.ndim < 2 or a.shape[-1] != a.shape[-2]:\n            raise numpy.linalg.LinAlgError('Last 2 dimensions of the array must be square')\n", expect='silent')
+M('C07', 'benign: searchsorted test after the side test', 'function.py', "        if array.ndim != 1:\n            raise ValueError('the array to search must be one-dimensional')\n        if side not in ('left', 'right'):\n            raise ValueError(f'expected \"left\" or \"right\", got {side}')\n", "        if side not in ('left', 'right'):\n            raise ValueError(f'expected \"left\" or \"right\", got {side}')\n        if array.ndim != 1:\n            raise ValueError('the array to search must be one-dimensional')\n", expect='silent')
+M('C07', 'benign twin of F20: subscript refuses two index arrays', 'function.py', "        array = self\n        axis = 0\n        for it in item + (slice(None),)*nx if iell is None", "        if sum(numpy.ndim(it) > 0 for it in item if it is not ... and it is not numpy.newaxis and not isinstance(it, slice)) > 1:\n            raise NotImplementedError('more than one index array')\n        array = self\n        axis = 0\n        for it in item + (slice(None),)*nx if iell is None", expect='silent')
